@@ -68,6 +68,12 @@ func newWithChunkMode(results []segment.Document, normCalc func(string, int) flo
 	footer.crc = s.w.Sum32()
 	footer.chunkMode = chunkMode
 	footer.numDocs = uint64(len(results))
+	// report the checksum the persisted file will end with (as a loaded segment does),
+	// not the intermediate checksum of the data section
+	footer.crc, err = footerCRC(footer)
+	if err != nil {
+		return nil, uint64(0), err
+	}
 
 	sb, err := initSegmentBase(br.Bytes(), footer,
 		s.FieldsMap, s.FieldsInv,
